@@ -5,3 +5,16 @@ claim("C16",
       "path-sensitive rule table over the CONNECT handler and the credential handlers; shape rules on sort.Search predicates and constant indexes (go/ssa)",
       "Decides, on every path of the current source, that session state and an accepting CONNACK exist only behind a nil Authenticate error, that both handlers accept only after username and password equalities held, that every sort.Search predicate is monotone, that constant indexes under a length switch are in range, and that the table is sorted by the searched field. Necessary conditions of the property, not the value-level equivalence 'accepted iff configured'.",
       "Not decided: SHA-256/CSV behaviour, contents of the password column, equality of hash values.")
+
+claim("C05",
+      "path-sensitive rule tables (uninterpreted atoms) + dominance + error-discipline over all paths with two loop iterations + closure-ancestry provenance (go/ssa)",
+      "Decides on every path of the current source: the completion callback that writes PUBACK/PUBCOMP is reachable only through Distribute's nil-error branch; every append / inter-node error in Distribute forces a non-nil return even if a later destination succeeds; the inbound QoS 2 callback forwards nothing on expiry and the registered PUBLISH exactly once on PUBREL, with PUBCOMP only from the completion callback; PUBREC only after a successful registration. Necessary conditions; no execution.",
+      "Not decided: at-most-once across reconnects with reused identifiers, durability on the remote node, commit-log internals.")
+claim("C15",
+      "dominance + nil-branch path guard + provenance through captured cells + constant/shape rules on the consume loop of wasp/messages/store.go (go/ssa)",
+      "Decides the order and provenance of the three effects of the consume loop on every path (callback → nil → persist → truncate within one iteration, same offset), that the resume point is the decoded mapped state, that deletion of log entries happens only through a guarded TruncateBefore(x-c), and the mapping/open flags. Necessary conditions of crash-safety; crash behaviour itself is not executed.",
+      "Not decided: commitlog/stream internals, page-cache behaviour on SIGKILL, the run-time bound 'replays at most one message'.")
+claim("C02",
+      "rule tables over the accept→append→consume→schedule→read-back→write chain: dominance, error discipline, three-valued evaluation of the job discriminator over constructor literals, provenance, constant relations (go/ssa)",
+      "Decides that the hand-over chain is unbroken on every path: ack only after a nil Distribute, no lost append error, the consume callback schedules its own offset, the writer's log/direct discriminator is definitely right for both job constructors (offset 0 included), the log branch reads back its own offset, Get seeks to it, truncation keeps a margin larger than the writer queue. Necessary conditions; no execution.",
+      "Not decided: segment roll / batching inside commitlog, payload integrity through protobuf, read failures in the writer, queue shutdown drops.")
